@@ -136,7 +136,18 @@ func (ex *Exec) prove(fnName string, st *State, kind, label string, goal *Term, 
 	if goal == True {
 		// still record: trivially discharged obligations count (they document what was checked)
 	}
-	o := &Obligation{Name: ex.oblName(fnName, kind, label), Func: fnName, Kind: kind, NAssume: len(ex.assumes), PC: st.pc, Goal: goal, Text: text, exec: ex}
+	// obligations raised inside an inlined callee belong to the function under verification
+	top := fnName
+	if ex.topFn != nil {
+		top = shortName(ex.topFn.String())
+		if ex.topC != nil {
+			top = ex.topC.Key
+		}
+		if fnName != top && fnName != shortName(ex.topFn.String()) {
+			label = fnName + "/" + label
+		}
+	}
+	o := &Obligation{Name: ex.oblName(top, kind, label), Func: top, Kind: kind, NAssume: len(ex.assumes), PC: st.pc, Goal: goal, Text: text, exec: ex}
 	if pos.IsValid() {
 		p := ex.eng.fset.Position(pos)
 		o.Pos = fmt.Sprintf("%s:%d", strings.TrimPrefix(p.Filename, ex.eng.repo+"/"), p.Line)
